@@ -28,6 +28,10 @@ type Spec struct {
 	Optimize bool     `json:"optimize,omitempty"`
 	Parts    int      `json:"parts,omitempty"`
 	Damages  []Damage `json:"damages"`
+	// Peek > 0: the safekeeper has been used before the application starts (Peek bytes of old file PeekIdx read
+	// through its GetReadSeeker): verdicts are cached and the inner pool's handle is somewhere in that file
+	Peek    int `json:"peek,omitempty"`
+	PeekIdx int `json:"peek_idx,omitempty"`
 }
 
 // apply the damages to a copy of the old tree's bytes (the model) and to disk
@@ -193,7 +197,10 @@ func check(s Spec) h.Result {
 	} else {
 		cl = append(cl, "old:undamaged")
 	}
-	err = h.ApplyFresh(patch, dd, out, &h.ApplyOpts{WrapPool: h.SafeKeeperWrap(sdf.Sig)})
+	if s.Peek > 0 {
+		cl = append(cl, "safekeeper:used-before-the-application")
+	}
+	err = h.ApplyFresh(patch, dd, out, &h.ApplyOpts{WrapPool: h.SafeKeeperWrap(sdf.Sig), Peek: s.Peek, PeekIdx: s.PeekIdx})
 	if err == nil {
 		if m := h.CheckDir(out, s.Pair.New, false); m != "" {
 			if damaged {
@@ -305,6 +312,10 @@ var prop = h.Prop[Spec]{
 			s.Parts = rapid.IntRange(0, 2).Draw(t, "parts")
 		}
 		s.Damages = genDamage(t, s.Pair.Old)
+		if rapid.IntRange(0, 3).Draw(t, "used-safekeeper") == 0 {
+			s.Peek = rapid.SampledFrom([]int{1, h.BS + 1, 1 << 30}).Draw(t, "peek-bytes")
+			s.PeekIdx = rapid.IntRange(0, 7).Draw(t, "peek-idx")
+		}
 		return s
 	},
 	Check: check,
